@@ -55,6 +55,18 @@ pub fn drive(args: &[String]) {
                                                             setg("d", strlit("value")), setg("e", strlit("value")), setg("g", strlit("")),
                                                             setv("u", card("CreateTable", vec![])), setv("u.ab", card("CreateTable", vec![])),
                                                             setg("h", read("u.ab.b"))])], natives: vec![], imports: vec![] }),
+            // branches that emit no code
+            ("empty-branches", P { fns: vec![f("main", vec![setg("c", int(0)),
+                                                            card("IfElse", vec![read("c"), setg("a", int(1)), card("Comment", vec![])]),
+                                                            setg("r", int(1)),
+                                                            card("IfElse", vec![read("c"), card("Comment", vec![]), setg("b", int(2))]),
+                                                            card("IfElse", vec![read("c"), setg("a", int(3)), block(vec![])]),
+                                                            setg("s", strlit("after")),
+                                                            card("IfTrue", vec![read("c"), card("Comment", vec![])]),
+                                                            card("IfFalse", vec![read("c"), block(vec![])]),
+                                                            card("While", vec![read("c"), block(vec![])]),
+                                                            repeat("i", int(2), block(vec![])),
+                                                            setg("t", int(9))])], natives: vec![], imports: vec![] }),
             ("dotted-set-first", P { fns: vec![f("main", vec![setv("opts.size.x", int(1)), setg("opts", card("CreateTable", vec![]))])], natives: vec![], imports: vec![] }),
         ];
         for (name, p) in probes {
